@@ -3594,9 +3594,10 @@ impl LineBuf {
 					return Ok(())
 				};
 				self.insert_at(start, '\t');
-				let mut range_indices = self.grapheme_indices()[start..end].to_vec().into_iter();
+				// Graphemes are addressed by index, not by the byte offsets in grapheme_indices()
+				let mut range_indices = start..end;
 				while let Some(idx) = range_indices.next() {
-					let gr = self.grapheme_at(idx).unwrap();
+					let Some(gr) = self.grapheme_at(idx) else { break };
 					if gr == "\n" {
 						let Some(idx) = range_indices.next() else {
 							self.push('\t');
@@ -3622,7 +3623,7 @@ impl LineBuf {
 				if self.grapheme_at(start) == Some("\t") {
 					indices_to_remove.push(start);
 				}
-				let mut range_indices = self.grapheme_indices()[start..end].to_vec().into_iter();
+				let mut range_indices = start..end;
 				while let Some(idx) = range_indices.next() {
 					let Some(gr) = self.grapheme_at(idx) else { break };
 					if gr == "\n" {
